@@ -323,6 +323,14 @@ theorem involutive_partial (o : Op) (hr : reversible o = true) (hc : clean o = t
     ∃ r rr, o.reverse = some r ∧ r.reverse = some rr ∧ view rr = view o :=
   involutive_op o hr hc
 
+/-- table-level options survive both reversals, falsy values included: a `WITHOUT ROWID` table
+(`sqlite_with_rowid=False`) that is dropped, re-created and dropped again -/
+example : ∃ r rr,
+    (Op.dropTable "t" none none none "[[[\"sqlite_with_rowid\", \"False\"]], [], []]" none).reverse = some r ∧
+    r.reverse = some rr ∧
+    view rr = view (Op.dropTable "t" none none none "[[[\"sqlite_with_rowid\", \"False\"]], [], []]" none) :=
+  involutive_partial _ (by simp [reversible]) (by simp [clean])
+
 /-- non-vacuity: a reversible, clean alter-column with every attribute modified, and a rename -/
 def fullAlter : Op :=
   .alterColumn {
